@@ -125,6 +125,33 @@ def model_ops(log, s, prev_nstep):
     return ops
 
 
+def tie_scenarios():
+    """fixed_step_limiter dividing the distance to the spherical boundaries (r = 1, 3, 6) exactly:
+    start at the origin / on exactly representable points, axis-parallel directions, charged
+    particles (the fixed limiter only applies to particles with an energy-loss process); the
+    boundary distance then EQUALS the physics step limit.  All three instantiations of the
+    propagation applier are used: AlongStepGeneralLinearAction, AlongStepNeutralAction (charged
+    tracks sent through the neutral along-step) and the harness's recording variant."""
+    dirs = ([1.0, 0.0, 0.0], [-1.0, 0.0, 0.0], [0.0, 1.0, 0.0], [0.0, -1.0, 0.0], [0.0, 0.0, 1.0],
+            [0.0, 0.0, -1.0])
+    names = ("celeriton", "positron", "anti-celeriton", "electron")
+    out = []
+    k = 0
+    for along in ("linear", "vlinear", "neutral", "vfluct"):
+        for lim in (0.25, 0.5, 0.125):
+            prim = []
+            for j, d in enumerate(dirs):
+                start = [0.0, 0.0, 0.0] if j % 2 == 0 else [-0.5 * c for c in d]
+                prim.append((names[(j + k) % 4], 9.0 - 0.5 * j, start, d, j % 2, 1))
+            kw = {"slots": 8, "along": along, "interactor": 1, "lossscale": 0.001,
+                  "xsscale": 0.001, "maxsteps": int(8 / lim), "maxevents": 4, "seed": 777 + k,
+                  "order": ["none", "reindex_particle_type", "init_charge"][k % 3],
+                  "opts": {"fixed_step_limiter": lim}}
+            out.append(("mock", prim, kw))
+            k += 1
+    return out
+
+
 def oracle(log, problem):
     fails = []
     q = log.q
@@ -141,7 +168,7 @@ def oracle(log, problem):
             d.update(extra)
         fails.append((kind, d))
 
-    n = {"steps": 0, "joins": 0, "points": 0}
+    n = {"steps": 0, "joins": 0, "points": 0, "ties": 0}
     for key, t in log.by_track.items():
         first = t[0]
         if first.st[1] == "e":
@@ -191,6 +218,27 @@ def oracle(log, problem):
                 add("step-shorter-than-displacement"
                     + (":failed-interaction" if s.act == failure else ""), s,
                     {"displacement": dx})
+        # the propagator reported a boundary hit (recorded answer, or: the geometry sits on a
+        # surface after a non-zero move) => the step is the propagated distance and the post-step
+        # action is the boundary action, ALSO when the distance equals the physics limit (tie)
+        hit = (s.G["bnd"] == 1) if s.G is not None else (s.bnda == 1 and not stopped
+                                                         and s.st[2] == "a")
+        if hit and s.st[2] == "a":
+            if s.stepa == s.lim:
+                n["ties"] += 1
+            if s.acta != bnd_act or (s.G is not None and s.hx["stepa"] != s.G["hx"]):
+                add("boundary-hit-without-boundary-action", s,
+                    {"tie": s.stepa == s.lim, "action_after_along": log.label(s.acta),
+                     "on_boundary": s.bnda, "recorded_propagation": s.G})
+        # the volume reported after the step (= pre-step volume of the NEXT step) contains the
+        # point just ahead of the post-step position
+        if s.st[4] == "a":
+            q = [p + 1e-6 * d for p, d in zip(s.pos1, s.dir1)]
+            lab = "[OUTSIDE]" if s.vol1 < 0 else vol_label.get(s.vol1, "?")
+            if lab not in locate(problem, q):
+                add("next-step-volume-does-not-contain-position", s,
+                    {"point_ahead": q, "reported": lab, "candidates": sorted(locate(problem, q)),
+                     "tie": s.stepa == s.lim})
         if s.vol1 != s.vol0 and not (s.act == bnd_act or (s.act3 == bnd_act)):
             add("volume-changed-without-boundary-action", s)
         if s.act == bnd_act and s.st[4] == "a" and s.vol1 == s.vol0:
@@ -232,7 +280,7 @@ def run(ctx):
         return LEVEL
     model = vlib.model_exe("C05")
     n_runs = 16 if quick else 120
-    st = {"runs": 0, "steps": 0, "joins": 0, "points": 0, "ops": 0, "mismatch": 0,
+    st = {"runs": 0, "steps": 0, "joins": 0, "points": 0, "ties": 0, "ops": 0, "mismatch": 0,
           "oracle_fail": 0, "kinds": {}, "verdicts": {}, "limit_actions": {}, "configs": []}
     seen = set()
     distinct = set()
@@ -240,8 +288,14 @@ def run(ctx):
     import glob
     import os
     corpus = sorted(glob.glob(os.path.join(vlib.CORPUS, "C05", "failed_*.in")))
-    for i in range(-len(corpus), n_runs):
-        if i < 0:
+    ties = tie_scenarios()
+    if quick:
+        ties = ties[(ctx.seed % 2)::2] + ties[:1]
+    for i in range(-len(corpus) - len(ties), n_runs):
+        if i < -len(corpus):
+            problem, prim, kw = ties[i + len(corpus) + len(ties)]
+            lines, rc, log = c01.run_harness(exe, problem, prim, kw)
+        elif i < 0:
             # corpus first: minimised past findings
             lines = [l for l in open(corpus[i + len(corpus)]).read().split("\n")
                      if l and not l.startswith("#")]
@@ -315,6 +369,10 @@ def run(ctx):
                         ctx.notes.append({"first_model_mismatch:" + kind: {"op": op, "impl": exp,
                                                                            "model": got,
                                                                            "script": lines}})
+    if st["ties"] == 0:
+        ctx.violation("coverage-boundary-tie", "no step had boundary distance == physics step "
+                      "limit: the tie scenarios no longer produce ties", {"ties": 0},
+                      found_input=False)
     if broken and not ctx.violations:
         ctx.violation("unproved", "; ".join(broken)[:600], {"no_longer_checks": broken},
                       found_input=False)
@@ -340,7 +398,8 @@ def run(ctx):
                 "step's recorded inputs); oracle evaluated on every step, every consecutive pair "
                 "of steps of a track and both step points",
         "runs": st["runs"], "steps_checked_by_oracle": st["steps"], "step_joins_checked": st["joins"],
-        "points_located": st["points"], "model_ops": st["ops"], "model_op_kinds": st["kinds"],
+        "points_located": st["points"], "boundary_ties(distance == physics limit)": st["ties"],
+        "model_ops": st["ops"], "model_op_kinds": st["kinds"],
         "model_mismatches": st["mismatch"], "oracle_failures": st["oracle_fail"],
         "run_verdicts": st["verdicts"],
         "limit_action>action_after_along": dict(sorted(st["limit_actions"].items())),
